@@ -216,6 +216,8 @@ struct restate_t
     std::vector<double> ke; // permutation keys: equality rows (after duplication)
     std::vector<double> kv; // permutation keys: variables
     std::vector<double> kd; // permutation keys used by the duplication (as in the fixture)
+    int                 ndup{0}; // 0: every equality row gets a combined twin (as in the fixture); k > 0: only 1 + (k-1) % (p+2)
+                                 // combined rows are appended (PARTIAL duplication: #redundant rows != #independent rows)
 
     template <class A>
     void io(A& a)
@@ -230,6 +232,17 @@ struct restate_t
         a("r_ke", ke);
         a("r_kv", kv);
         a("r_kd", kd);
+        if constexpr (std::is_same_v<A, verif::reader_t>)
+        {
+            if (a.has("r_ndup")) // absent in replay files written before partial duplication existed
+            {
+                a("r_ndup", ndup);
+            }
+        }
+        else
+        {
+            a("r_ndup", ndup);
+        }
     }
 };
 
@@ -270,6 +283,27 @@ bool restate(const restate_t& R, const prog_t& P, const truth_t& T, const start_
         }
         const int  p    = static_cast<int>(P2.A.rows());
         const auto perm = permutation(R.kd, p);
+        if (R.ndup > 0)
+        {
+            // partial duplication: append only `dups` combined rows (possibly fewer or more than p)
+            const int dups = 1 + (R.ndup - 1) % (p + 2);
+            MatrixXd  A2(p + dups, n);
+            VectorXd  b2(p + dups);
+            A2.topRows(p) = P2.A;
+            b2.head(p)    = P2.b;
+            for (int d = 0; d < dups; ++d)
+            {
+                const int    pr = perm[static_cast<size_t>(d % p)];
+                const int    pm = (pr + 1 + d / p) % p;
+                const double v1 = w1 + 0.25 * (d / p), v2 = w2 - 0.5 * (d / p);
+                A2.row(p + d)   = P2.A.row(pr) * v1 + P2.A.row(pm) * v2;
+                b2(p + d)       = P2.b(pr) * v1 + P2.b(pm) * v2;
+            }
+            P2.A = A2;
+            P2.b = b2;
+        }
+        else
+        {
         MatrixXd   A2(2 * p, n);
         VectorXd   b2(2 * p);
         for (int row = 0; row < p; ++row)
@@ -284,6 +318,7 @@ bool restate(const restate_t& R, const prog_t& P, const truth_t& T, const start_
         }
         P2.A = A2;
         P2.b = b2;
+        }
     }
     if (kind == r_scale_ineq || all)
     {
@@ -625,6 +660,7 @@ rc::Gen<restate_t> gen_restate(const int percent)
             R.ke     = *rc::gen::container<std::vector<double>>(24, gen::real(0.0, 1.0));
             R.kv     = *rc::gen::container<std::vector<double>>(12, gen::real(0.0, 1.0));
             R.kd     = *rc::gen::container<std::vector<double>>(12, gen::real(0.0, 1.0));
+            R.ndup   = *gen::chance(60) ? *gen::range<int>(1, 14) : 0;
             return R;
         });
 }
